@@ -35,7 +35,7 @@ def random_history(rnd):
         r = rnd.random()
         n = rnd.choice(NUMS + [1, 48, 255, rnd.randrange(256)])
         if r < 0.45:
-            l = rnd.choice([0, 1, 2, 3, 31, 32, 33, 100, 255, rnd.randrange(256)])
+            l = rnd.choice([0, 1, 2, 3, 31, 32, 33, 100, 253, 254, 255, rnd.randrange(256), rnd.choice([256, 257, 300, 600])])
             ops.append("a:%d:%s" % (n, frames.tag_body(rnd, l).hex() or "-"))
         elif r < 0.7:
             ops.append("r:%d" % n)
@@ -49,6 +49,24 @@ def random_history(rnd):
     return "tg " + ",".join(ops)
 
 
+def long_history(rnd, total=70000):
+    """a list grown beyond 64 KiB (maximal elements of assorted numbers behind SSID and DS), then edited at its front,
+    in its middle and at its end: removal must move the whole tail whatever its size (op `tgl`: per-op ret/len, bytes at the end)"""
+    ops = ["s:%s" % bytes(rnd.randrange(1, 256) for _ in range(rnd.choice([3, 32]))).hex(), "c:%d" % rnd.randrange(1, 200)]
+    size = 0
+    nums = []
+    while size < total:
+        n = rnd.choice([221, 48, 45, 61, 127, 7, rnd.randrange(4, 256)])
+        l = rnd.choice([255, 255, 255, 254, 200, rnd.randrange(1, 256)])
+        ops.append("a:%d:%s" % (n, frames.tag_body(rnd, l).hex()))
+        nums.append(n)
+        size += l + 2
+    tail = ["r:%d" % nums[-1], "r:3", "k:%d" % nums[len(nums) // 2], "r:%d" % nums[0], "s:%s" % bytes(rnd.randrange(1, 256) for _ in range(5)).hex(),
+            "c:%d" % rnd.randrange(256), "r:%d" % nums[len(nums) // 2], "k:%d" % nums[-2], "r:0", "r:%d" % nums[1]]
+    rnd.shuffle(tail)
+    return "tgl " + ",".join(ops + tail + ["a:0:-"])
+
+
 def relcheck(line, c):
     if c is None or c.startswith("CRASH") or c in ("nop", "bad-op"):
         return None
@@ -59,7 +77,7 @@ def check(ctx):
     depth = 7 if ctx.tier == "thorough" else 5
     ctx.rule = ("operation sequences over the alphabet {add n with body length 0/1/2, remove n : n in 0,3,5,221} + set-SSID x3, set-channel x2, count x2 "
                 "explored breadth-first with state deduplication to depth %d (every op applied to every distinct reachable state, each history replayed from the empty list on the real library), "
-                "plus seeded long random histories (up to 150 ops, body lengths 0..255, all tag numbers); after every op the stored bytes, recorded length and return value are "
+                "plus seeded long random histories (up to 150 ops, body lengths 0..255 and 256..600, all tag numbers) and lists grown beyond 64 KiB / 128 KiB and then edited at front, middle and end; after every op the stored bytes, recorded length and return value are "
                 "compared with the model and checked against the Spec relation (well-formedness, add appends, remove/set/count agree with the reference list); distinct = (op, resulting state)" % depth)
     r = fw.prepare(ctx, MODULE)
     if r is None:
@@ -100,6 +118,8 @@ def check(ctx):
     # the per-kind setters (each kind has its own copy of the set-SSID / set-channel code): every sequence of up to three
     from checks import c03
     fw.run_suite(ctx, exe, "S-tg/setters-per-kind", c03.setter_lines(), "setter / remove sequence on a generated frame")
+    fw.run_suite(ctx, exe, "S-tg/beyond-64KiB", [long_history(rnd, t) for t in ((66000, 70000, 131500) if ctx.tier == "quick" else (66000, 66000, 70000, 70000, 131500, 140000, 263000))],
+                 "tag edit history on a list longer than 64 KiB")
     # the same relation when an allocation is refused in the middle of a history: a call that reports failure leaves the
     # stored bytes and the recorded length exactly as they were (every request index of short histories, once each)
     fl = []
@@ -120,6 +140,8 @@ def replay(rp):
     import diffrun
     if rp.get("kind") != "line":
         return False, "replay names a broken obligation, not an input: %s" % rp.get("broken")
+    if rp["line"].startswith(("tgl ", "gen ")):
+        return fw.replay_line(rp)
     exe, err = diffrun.build_harness("asan")
     co, cr = diffrun.run_harness_all(exe, [rp["line"]])
     if co[0] is None or co[0].startswith("CRASH"):
